@@ -39,25 +39,26 @@ class ModelCfg:
     """One TLC configuration of MetricsSync.tla."""
 
     def __init__(self, temps, filters, attrseqs, *, limit=100, deflimit=100, handles=1, amounts="AM_12",
-                 maxadd=3, maxcol=3, allorders=False, dev=(), init=None):
+                 maxadd=3, maxcol=3, allorders=False, dev=(), init=None, shutdown=0):
         self.temps, self.filters, self.attrseqs = temps, filters, attrseqs
         self.init = len(TEMPS[temps]) if init is None else init     # readers registered up front; the rest arrive late
         self.limit, self.deflimit, self.handles = limit, deflimit, handles
         self.amounts, self.maxadd, self.maxcol = amounts, maxadd, maxcol
         self.allorders, self.dev = allorders, tuple(dev)
+        self.shutdown = shutdown      # readers that may be shut down individually in the middle of the history
 
     def name(self):
-        return "%s%s %s %s %s L=%d/%d h=%d add<=%d col<=%d%s%s" % (
-            self.temps, "" if self.init == len(TEMPS[self.temps]) else "(%d up front)" % self.init, self.filters, self.attrseqs, self.amounts, self.limit, self.deflimit, self.handles, self.maxadd,
+        return "%s%s%s %s %s %s L=%d/%d h=%d add<=%d col<=%d%s%s" % (
+            self.temps, "" if self.init == len(TEMPS[self.temps]) else "(%d up front)" % self.init, "(<=%d shut down)" % self.shutdown if self.shutdown else "", self.filters, self.attrseqs, self.amounts, self.limit, self.deflimit, self.handles, self.maxadd,
             self.maxcol, " allorders" if self.allorders else "", " Dev=" + ",".join(self.dev) if self.dev else "")
 
     def text(self, hist, invariants, dev=None):
         dev = self.dev if dev is None else dev
         return ("CONSTANTS\n  Temps <- %s\n  InitReaders = %d\n  Filters <- %s\n  AttrSeqs <- %s\n  Limit = %d\n  DefLimit = %d\n"
-                "  MaxHandles = %d\n  Amounts <- %s\n  MaxAdd = %d\n  MaxCollect = %d\n  AllOrders = %s\n"
+                "  MaxHandles = %d\n  Amounts <- %s\n  MaxAdd = %d\n  MaxCollect = %d\n  MaxShutdown = %d\n  AllOrders = %s\n"
                 "  Dev = %s\n  Hist = %s\nINIT Init\nNEXT Next\nVIEW View\nINVARIANTS %s\n" % (
                     self.temps, self.init, self.filters, self.attrseqs, self.limit, self.deflimit, self.handles,
-                    self.amounts, self.maxadd, self.maxcol,
+                    self.amounts, self.maxadd, self.maxcol, self.shutdown,
                     "TRUE" if self.allorders else "FALSE", tla_set(dev), "TRUE" if hist else "FALSE",
                     " ".join(invariants)))
 
@@ -103,7 +104,8 @@ def model_check(ctx, mcs, *, workers=3, parallel=2, timeout_s=600, coverage_firs
             raise Broken("the reference model violates %s in config %s\n%s" % (r.violated, mc.name(), r.trace_text[:3000]))
         T.must_ok(r, "MetricsSync model checking " + mc.name())
         if coverage_first and i == 0:
-            for a in ("Create", "Add", "Collect") + (("AddReader",) if mc.init < len(TEMPS[mc.temps]) else ()):
+            for a in ("Create", "Add", "Collect") + (("AddReader",) if mc.init < len(TEMPS[mc.temps]) else ()) + (
+                    ("ShutdownReader",) if mc.shutdown else ()):
                 if r.coverage.get(a, (0, 0))[0] == 0:
                     raise Broken("vacuity: action %s never taken in %s" % (a, mc.name()))
     return results
@@ -207,6 +209,8 @@ def program_from_behaviour(beh, x, rng):
             ops.append({"e": "Create"})
         elif e["e"] == "AddReader":
             ops.append({"e": "AddReader", "t": e["t"]})
+        elif e["e"] == "ShutdownReader":
+            ops.append({"e": "ShutdownReader", "r": e["r"]})
         elif e["e"] == "Add":
             ops.append({"e": "Add", "h": e["h"], "attrs": e["attrs"], "v": e["v"]})
         elif e["e"] == "Collect":
@@ -237,9 +241,12 @@ def attr_pool(rng, nsets, nkeys, nvals, maxlen=3):
 
 def random_program(rng, x, *, mode="api", temps=None, filters=None, limit=REAL_DEFLIMIT, handles=1, nops=120,
                    nsets=12, nkeys=3, nvals=3, p_collect=0.2, mono=None, amounts=(1, 9), late_create=True,
-                   late=(), collect_first=False):
+                   late=(), collect_first=False, shutdown=0, p_down_collect=0.0):
     """`temps`: readers registered up front; `late`: temporalities of readers registered at random points in
-    the middle of the history; `collect_first`: some collections happen before the instrument is created."""
+    the middle of the history; `collect_first`: some collections happen before the instrument is created;
+    `shutdown`: so many readers are shut down individually (MetricReader::Shutdown) at random points while the
+    others keep collecting - half of them right after a collection of their own; a reader that was shut down
+    collects again only with probability `p_down_collect` per draw."""
     temps = temps or rng.choice(list(TEMPS.values()))
     filters = filters or [[0]]
     mono = (rng.random() < 0.6) if mono is None else mono
@@ -255,7 +262,24 @@ def random_program(rng, x, *, mode="api", temps=None, filters=None, limit=REAL_D
     nh = 1
     late = list(late)
     when = sorted(rng.randrange(nops // 5, nops) for _ in late)
+    down, shut_at = set(), sorted(rng.randrange(nops // 10, nops) for _ in range(shutdown))
+
+    def pick_reader():
+        r = rng.randrange(1, nr + 1)
+        while r in down and len(down) < nr and rng.random() >= p_down_collect:
+            r = rng.randrange(1, nr + 1)
+        return r
+
     for i in range(nops):
+        while shut_at and shut_at[0] == i:
+            shut_at.pop(0)
+            live = [r for r in range(1, nr + 1) if r not in down]
+            if live:
+                q = rng.choice(live)
+                if rng.random() < 0.5:         # it has just swapped the live interval out for everybody else
+                    ops.append({"e": "Collect", "r": q})
+                ops.append({"e": "ShutdownReader", "r": q})
+                down.add(q)
         while when and when[0] == i:
             when.pop(0)
             ops.append({"e": "AddReader", "t": late.pop(0)})
@@ -265,7 +289,7 @@ def random_program(rng, x, *, mode="api", temps=None, filters=None, limit=REAL_D
             ops.append({"e": "Create"})
             nh += 1
         elif u < p_collect:
-            ops.append({"e": "Collect", "r": rng.randrange(1, nr + 1)})
+            ops.append({"e": "Collect", "r": pick_reader() if down else rng.randrange(1, nr + 1)})
         else:
             v = rng.randint(amounts[0], amounts[1])
             if not mono and rng.random() < 0.4:
